@@ -248,7 +248,7 @@ def weak_validate(rep, kind, module, descs, exe, scen, paths, tag, invariants, m
             return dict(ok=False, accepted=accepted, traces=total,
                         why="a recorded execution violates the spec: %s" % res["violated"])
         if res["rc"] != 0:
-            return dict(ok=False, accepted=accepted, traces=total, why="TLC failed on the weak traces (rc=%s)" % res["rc"])
+            vlib.tlc_must_pass(res, "%s_weak_%d" % (tag, i))      # timeout / tool failure is not a verdict (exit 2)
         acc = set()
         for ln in res["printed"]:
             if ln.startswith('<<"ACCEPTED"'):
@@ -371,6 +371,8 @@ def trace_validate(rep, kind, scs, tag, seed, runs, invariants, key=None, varian
                     % " ".join(invariants))
         res = vlib.run_tlc(mc, cfg, tag + "_weak", workers=4, timeout=1200, env={"TRACE": wf}, heap="8g")
         rep.add_tlc(res)
+        if res["rc"] != 0 and not res["violated"]:
+            vlib.tlc_must_pass(res, tag + "_weak")      # timeout / tool failure is not a verdict
         acc = set()
         for ln in res["printed"]:
             if ln.startswith('<<"ACCEPTED"'):
